@@ -368,3 +368,13 @@ HARMLESS = [
     # equivalent comparison
     dict(id="H-C18-fromconfig-match-order", prop="C18", file=CHF, old="            Chunker::FixedSize => Self::FixedSize(FixedSizeChunkIter::new(\n                config.chunk_size(),\n                reader,\n                size_hint,\n            )),", new="            Chunker::FixedSize => {\n                let size = config.chunk_size();\n                Self::FixedSize(FixedSizeChunkIter::new(size, reader, size_hint))\n            }"),
 ]
+
+HARMLESS += [
+    dict(id="H-C12-repair-assign-order", prop="C12", file=RSNF, old="                node.content = Some(new_content);\n                node.meta.size = new_size;", new="                node.meta.size = new_size;\n                node.content = Some(new_content);"),
+    dict(id="H-C03-repair-progress-var", prop="C03", file=RSNF, old="    modifier.finalize()?;\n\n    for snap in modified_snapshots {", new="    modifier.finalize()?;\n    info!(\"saving {} modified snapshots\", modified_snapshots.len());\n\n    for snap in modified_snapshots {"),
+    dict(id="H-C08-raw-finalize-binding", prop="C08", file=PK, old="        self.file_writer.take().unwrap().finalize()?;\n\n        Ok(self.basic.take_stats())", new="        let writer = self.file_writer.take().unwrap();\n        writer.finalize()?;\n\n        Ok(self.basic.take_stats())"),
+    dict(id="H-C09-apply-keep-binding", prop="C09", file=FG, old="                    let keep = !reasons.is_empty();\n                    (keep, reasons)", new="                    (!reasons.is_empty(), reasons)"),
+    dict(id="H-C01-ta-match-arm-order", prop="C01", file=TA, old="            ParentResult::NotMatched => {\n                debug!(\"changed   file: {}\", filename.display());\n                self.summary.files_changed += 1;\n            }\n            ParentResult::NotFound => {\n                debug!(\"new       file: {}\", filename.display());\n                self.summary.files_new += 1;\n            }", new="            ParentResult::NotFound => {\n                debug!(\"new       file: {}\", filename.display());\n                self.summary.files_new += 1;\n            }\n            ParentResult::NotMatched => {\n                debug!(\"changed   file: {}\", filename.display());\n                self.summary.files_changed += 1;\n            }"),
+    dict(id="H-C16-treepacks-inline-type", prop="C16", file=RH, old="            let blob_type = pack.blob_type();\n            if blob_type == BlobType::Tree {", new="            if pack.blob_type() == BlobType::Tree {"),
+    dict(id="H-C02-check-neg-cond", prop="C02", file=PR, old="            if *count == 0 {\n                return Err(RusticError::new(\n                    ErrorKind::Internal,\n                    \"Blob ID `{blob_id}` is missing in index files.\",", new="            if *count < 1 {\n                return Err(RusticError::new(\n                    ErrorKind::Internal,\n                    \"Blob ID `{blob_id}` is missing in index files.\","),
+]
